@@ -1,3 +1,12 @@
 HOOK_COMMITS = ["9f813e6"]
 NOT_APPLICABLE = {}
-CLAIMED = {}
+CLAIMED = {
+ "C01": dict(category="exploration", technique="bounded-exhaustive token enumeration + rapid property-based generation (token soups, fixture mutation, include/macro graphs, option sets) with a crash/hang journal; oracle: no panic, no fatal, no hang, no runtime fault reported as a diagnostic, accepted => serialises",
+   text="Generated-input search over byte strings, multi-file projects, macro graphs and option sets against a totality oracle; exhaustive for all token sequences of length <= 2 over a 78-token alphabet after 36 scanner-state prefixes (length 3 over a 31-token alphabet in the thorough tier); sampling beyond. It cannot show absence beyond those bounds.",
+   note="Worker isolation: panics are recovered in-process, process-fatal outcomes (stack overflow) and hangs (30 s limit) are recovered from a per-shard journal and re-confirmed in a fresh process. Faults of the pinned schema library that /repo cannot repair are listed in known_findings.json by origin frame (overlay of the library's two panic converters).",
+   design_ref="DESIGN.md 6 C01"),
+ "C14": dict(category="exploration", technique="bounded-exhaustive token enumeration + rapid generation over the scanner alone; oracle: lexeme well-formedness, schema-library Len() as reference for body extent, independent trivia recogniser for every gap",
+   text="Every input the scanner reads to EOF without error is checked: lexemes inside the input, ordered, non-overlapping, keywords known to the directive table, schema/enum lexemes exactly as long as the schema library delimits them, regex bodies slash-delimited, and every byte outside lexemes accepted by an independent recogniser of trivia. Exhaustive up to the same token bounds as C01.",
+   note="The schema library's Len() is trusted as the definition of 'one value'; the trivia recogniser encodes the README's comment/annotation rules plus the one rule learned from fixtures (a '#' on a '//' annotation line starts a line comment).",
+   design_ref="DESIGN.md 6 C14"),
+}
